@@ -4,7 +4,7 @@
    The modelled operations (Model.v, ModelF.v) contain every conversion / wrap modulo 2^w of the C and RecInt types and
    every IEEE rounding explicitly, so "= exact residue" states that no overflow, wrap or rounding is observable. *)
 From Coq Require Import ZArith List.
-From C03 Require Import Model ModelF Params ProofsInt ProofsEuclid ProofsIntInv ProofsRU ProofsFM ProofsBI ProofsTop.
+From C03 Require Import Model ModelF Params ProofsInt ProofsEuclid ProofsIntInv ProofsRU ProofsFM ProofsBI ProofsBarrett ProofsBarrettM ProofsTop.
 Local Open Scope Z_scope.
 
 (* integral Modular<S,C>: every instantiated (Storage_t, Compute_t) pair, every p in [minCardinality, maxCardinality] *)
@@ -56,3 +56,13 @@ Theorem C03_balanced_int_tolerance_satisfiable :
   BI_pre 64 7 /\ q_tolerance 7 (3 * 3) (bi_quot 64 7 (rn 53 (rn 53 3 * rn 53 3))).
 Proof. exact bi_tolerance_sat. Qed.
 Print Assumptions C03_balanced_int_tolerance_satisfiable.
+(* mul_precomp_p (modular-mulprecomp.inl), every (Storage_t, Compute_t) width pair: with bs = bitsize(p) <= 4*sizeof(Compute_t) - 2 (the
+   asserted precondition) and invp = floor(2^(4*sizeof(Compute_t) + bs - 1) / p) (what precomp_p documents), the Barrett quotient estimate is the
+   true quotient or one less, so the single conditional subtraction yields the exact residue; Mulpp_stmt is stated in ProofsBarrettM.v.
+   (That precomp_p itself returns these two values is correspondence-tested, not proved.) *)
+Theorem C03_barrett_quotient_within_one : forall x p A E N, 0 < A -> 0 < E -> N = A * E -> 2 * A <= p -> 0 <= x -> 2 * x <= N ->
+  x / p - 1 <= ((x / A) * (N / p)) / E <= x / p.
+Proof. exact barrett_bound. Qed.
+Print Assumptions C03_barrett_quotient_within_one.
+Theorem C03_mul_precomp_p_exact : forall sb sg cb p, Mulpp_stmt sb sg cb p.   Proof. exact mulpp_exact. Qed.
+Print Assumptions C03_mul_precomp_p_exact.
